@@ -23,7 +23,9 @@ func init() {
 
 func genC04(ctx *fw.Ctx) []fw.Case {
 	var cases []fw.Case
-	for _, s := range inputSources(ctx, 60, 800) {
+	srcs := inputSources(ctx, 120, 2000)
+	srcs = append(srcs, tortureSources(ctx, ctx.Pick(200, 5000))...)
+	for _, s := range srcs {
 		s := s
 		cases = append(cases, fw.Case{ID: s.ID, Run: func(r *fw.Rec) { c04Source(r, s) }})
 	}
